@@ -66,19 +66,25 @@ func (q *DedupQueue) HasChunk(id ChunkID) (bool, error) {
 	req, isInFlight := q.hasChunkQueue.loadOrStore(id)
 
 	if isInFlight { // The request is already in-flight, wait for it to come back
+		verifYieldID("dedup.has.join", id)
 		data, err := req.wait()
+		verifYieldID("dedup.has.woke", id)
 		return data.(bool), err
 	}
 
 	// This request is the first one for this chunk, execute as normal
+	verifYieldID("dedup.has.lead", id)
 	hasChunk, err := q.store.HasChunk(id)
+	verifYieldID("dedup.has.upret", id)
 
 	// Signal to any others that wait for us that we're done, they'll use our data
 	// and don't need to hit the store themselves
 	req.markDone(hasChunk, err)
+	verifYieldID("dedup.has.marked", id)
 
 	// We're done, drop the request from the queue to avoid keeping all in memory
 	q.hasChunkQueue.delete(id)
+	verifYieldID("dedup.has.deleted", id)
 	return hasChunk, err
 }
 
